@@ -61,7 +61,7 @@ class Contract:
                  ghost=None, axioms=(), method_of=None, notes='', drop_calls=(),
                  expect_obligations=None, cover=True, exc_mode='auto', spec_module=None,
                  safety=True, witness=None, merge=True, yield_each=(), yield_key=None,
-                 concrete_ensures=(), witness_library=(), yield_each_local=(), region=None):
+                 concrete_ensures=(), witness_library=(), yield_each_local=(), region=None, loop_each=None):
         self.id = id
         self.file = file
         self.qualname = qualname
@@ -106,6 +106,7 @@ class Contract:
         self.safety = safety
         self.witness = witness
         self.merge = merge
+        self.loop_each = dict(loop_each or {})   # ordinal -> [P(ITEM)]: proved for all of SEQ at entry, assumed for ITEM
         self.shape = {}           # name -> n: parameter/free name bound to a list of n fresh symbolic elements (SB)
         self.region = region      # callable(func_ast) -> statements: block contract on a region of the body
         self.yield_each = list(yield_each)      # P(c) proved at every yield, over entry values only
